@@ -82,6 +82,9 @@ def run(ctx):
         import docwalk
         ctx.guard(docwalk.cursor_advance, ctx, cfg, fs, 'C.cursor', r'render_console$|Doc::first_line$')
         ctx.guard(docwalk.payload_writers, ctx, cfg, fs, 'C.cursor')
+        import c04 as c04_, c08 as c08_
+        ctx.guard(c08_.keep_only, ctx, lambda: c04_.str_index(ctx, cfg, fs), lambda o: 'Splitter' in o.key, 'C.cursor')
+        ctx.guard(c08_.keep_only, ctx, lambda: c04_.str_cut(ctx, cfg, fs), lambda o: 'Splitter' in o.key, 'C.cursor')
     # derive: the doc comment of a derived parser is split into description / header / footer exactly as documented, each section
     # yielding to its own explicit annotation only (translation validation members of C17 that carry doc comments)
     import c17
